@@ -384,6 +384,9 @@ def valDictSet (kv : List (Val × Val)) (k : String) (v : Val) : List (Val × Va
     if k' == k then (.str k', v) :: rest else (.str k', v') :: valDictSet rest k v
   | e :: rest => e :: valDictSet rest k v
 
+/-- `if index < 0: raise IndexError` followed by `xs[index]` (IndexError when too large) -/
+def indexChecked {α} (xs : List α) (i : Int) : Option α := if i < 0 then none else xs[i.toNat]?
+
 /-- `_get_name_and_record_counts_from_union` -/
 def unionCounts (bs : List Schema) : Nat × Nat :=
   bs.foldl (fun (acc : Nat × Nat) b =>
@@ -500,7 +503,7 @@ def readData (fuel : Nat) (env : Env) (ro : ROpts) (s : Schema) (bs : Bytes) : R
     pure (v, rest)
   | .enum _ syms _ _ => do
     let (i, rest) ← decodeLong bs
-    match Py.listIndex syms i with
+    match indexChecked syms i with
     | some sym => pure (.str sym, rest)
     | none => throw .index
   | .array items => do
@@ -513,7 +516,7 @@ def readData (fuel : Nat) (env : Env) (ro : ROpts) (s : Schema) (bs : Bytes) : R
     pure (.dict kv, rest)
   | .union branches => do
     let (i, rest) ← decodeLong bs
-    match Py.listIndex branches i with
+    match indexChecked branches i with
     | none => throw .index
     | some b =>
       let (v, rest) ← readData fuel env ro b rest
@@ -579,7 +582,7 @@ def skipData (fuel : Nat) (env : Env) (s : Schema) (bs : Bytes) : R Bytes :=
     skipBlocksWith (skipData fuel env values) true (rest.length + 1) c rest
   | .union branches => do
     let (i, rest) ← decodeLong bs
-    match Py.listIndex branches i with
+    match indexChecked branches i with
     | none => throw .index
     | some b => skipData fuel env b rest
   | .record _ fields _ => skipFieldsWith (skipData fuel env) fields bs
